@@ -287,13 +287,22 @@ func checkSequentialApply(w *World, r *Report, fi *FuncInfo, rule, ruleAlias str
 			"the caller's slice of builders is only read", "the caller's slice of builders is modified ("+bad+"): a list that is reused for another module or AddModules call no longer holds the same registrations")
 	}
 	// the loop
-	var loops []*ast.RangeStmt
+	var loops []*iterLoop
+	for _, lf := range funcLitsIn(fi.Decl.Body) {
+		_ = lf
+	}
 	ast.Inspect(fi.Decl.Body, func(x ast.Node) bool {
-		if rs, ok := x.(*ast.RangeStmt); ok {
-			for _, c := range callsIn(rs.Body, false) {
-				if id, ok := unparen(c.Fun).(*ast.Ident); ok && rs.Value != nil && info.Uses[id] == objOf(info, rs.Value) {
-					loops = append(loops, rs)
-				}
+		st, isStmt := x.(ast.Stmt)
+		if !isStmt {
+			return true
+		}
+		il := asIterLoop(info, st)
+		if il == nil || il.Elem == nil {
+			return true
+		}
+		for _, c := range callsIn(il.Body, false) {
+			if id, ok := unparen(c.Fun).(*ast.Ident); ok && info.Uses[id] == il.Elem {
+				loops = append(loops, il)
 			}
 		}
 		return true
@@ -303,11 +312,15 @@ func checkSequentialApply(w *World, r *Report, fi *FuncInfo, rule, ruleAlias str
 		r.Fail(rule, con, fi.Decl.Pos(), "expected one loop applying each builder once, found %d", len(loops))
 		return
 	}
-	rs := loops[0]
-	elem := objOf(info, rs.Value)
-	r.Check(objOf(info, rs.X) == listObj, rule, con+":source", rs.Pos(), true,
-		"the loop ranges over the builders it was given, front to back",
-		"the loop ranges over "+exprStr(rs.X)+", not over the parameter "+listObj.Name()+": entries may be dropped, reordered or taken from a shared buffer")
+	il := loops[0]
+	rs := struct {
+		Body *ast.BlockStmt
+		X    ast.Expr
+	}{il.Body, il.Coll}
+	elem := il.Elem
+	r.Check(il.CollObj == listObj && il.Dir == "fwd", rule, con+":source", il.Stmt.Pos(), true,
+		"the loop iterates over the builders it was given, front to back",
+		"the loop iterates ("+il.Dir+") over "+exprStr(rs.X)+", not front to back over the parameter "+listObj.Name()+": entries may be dropped, reordered or taken from a shared buffer")
 	// nil skip: first statement `if elem == nil { continue }`
 	nilSkip := false
 	var applyIf *ast.IfStmt
@@ -330,9 +343,9 @@ func checkSequentialApply(w *World, r *Report, fi *FuncInfo, rule, ruleAlias str
 			}
 		}
 	}
-	r.Check(nilSkip, rule, con+":nil-skip", rs.Pos(), false, "nil entries are skipped", "nil entries are not skipped with `continue`")
+	r.Check(nilSkip, rule, con+":nil-skip", il.Stmt.Pos(), false, "nil entries are skipped", "nil entries are not skipped with `continue`")
 	if applyIf == nil {
-		r.Fail(rule, con+":error", rs.Pos(), "the builder's error is not checked with `if err := builder(c); err != nil`")
+		r.Fail(rule, con+":error", il.Stmt.Pos(), "the builder's error is not checked with `if err := builder(c); err != nil`")
 		return
 	}
 	_ = applyCall
@@ -381,7 +394,7 @@ func checkSequentialApply(w *World, r *Report, fi *FuncInfo, rule, ruleAlias str
 	ast.Inspect(fi.Decl.Body, func(x ast.Node) bool {
 		if bs, ok := x.(*ast.BlockStmt); ok {
 			for i, st := range bs.List {
-				if st == ast.Stmt(rs) && i+1 < len(bs.List) {
+				if st == il.Stmt && i+1 < len(bs.List) {
 					if ret, ok := bs.List[i+1].(*ast.ReturnStmt); ok && len(ret.Results) == 1 && isNilIdent(info, ret.Results[0]) {
 						okTail = true
 					}
@@ -390,7 +403,7 @@ func checkSequentialApply(w *World, r *Report, fi *FuncInfo, rule, ruleAlias str
 		}
 		return true
 	})
-	r.Check(okTail, rule, con+":tail", rs.End(), false, "nil is returned after all builders succeeded", "the loop is not followed directly by `return nil`")
+	r.Check(okTail, rule, con+":tail", il.Stmt.End(), false, "nil is returned after all builders succeeded", "the loop is not followed directly by `return nil`")
 }
 
 // ruleDeferredAddTotal: the deferred graph insertion used by Build has no
